@@ -17,6 +17,8 @@ mod fam_tlv;
 mod fam_sdeque;
 mod fam_sorted;
 mod fam_abt;
+mod fam_vtime;
+mod fam_nfs;
 mod util;
 
 use std::io::Write;
@@ -36,6 +38,8 @@ fn families() -> Vec<Box<dyn Family>> {
     v.push(Box::new(fam_sdeque::SDequeFamily));
     v.push(Box::new(fam_sorted::SortedFamily));
     v.push(Box::new(fam_abt::AbtFamily));
+    v.push(Box::new(fam_vtime::VTimeFamily));
+    v.push(Box::new(fam_nfs::NfsFamily));
     v
 }
 
